@@ -255,7 +255,7 @@ class _TableFormSection(object):
     # xy
 
     if "x" in section or "y" in section:
-      if not "x" and "y" in section:
+      if not ("x" in section and "y" in section):
         raise ConfigParserException("Did not find both 'x' and 'y' entries whilst parsing the data for section '{}'".format(section_name))
 
       if "xy" in section:
@@ -599,6 +599,8 @@ class ConfigParser(object):
     label = label.strip()
 
     params = [p.strip() for p in params.split(',')]
+    if not all(params):
+      raise ConfigParserException("Invalid function signature found in [Potential-Form] (empty parameter name): '{0}'".format(pf))
     return PotentialFormSignatureTuple(label, params, False)
 
   def _parse_params_section(self, section_name, parse_line_func):
